@@ -162,7 +162,7 @@ class propagation_fd(Contract):
     generic_replay = False
     bounded_reason = ("unsupported: equality of a reported variance with a squared directional derivative of the whole identification (SVD, QR, inverse, eig, log) "
                       "is a numerical statement checked against central finite differences; the kernels are uninterpreted in the verifier")
-    bounded_bound = ("rank-2m Hankel matrices plus a 1 % full-rank part, 1-3 channels with 1..l reference columns per block, 2-5 block rows, ordmax = 2m..2m+2 (<= 8), "
+    bounded_bound = ("rank-2m Hankel matrices (every second one with two additional REAL poles, one over-damped and one aliased) plus a 1 % full-rank part, 1-3 channels with 1..l reference columns per block, 2-5 block rows, ordmax = 2m..2m+2 (<= 8), "
                      "EVERY order 2..ordmax compared, 1-3 random perturbation directions as factor columns (column-stacked), finite differences at 1e-6 and 1e-7 that "
                      "must agree to 1e-3, singular-value gaps >= 1e-3, eigenvalue separation >= 0.05, tolerance 1e-3")
-    bounded_driver = {"driver": "c17_fd", "inputs": {"trials": 6, "trials_thorough": 40}}
+    bounded_driver = {"driver": "c17_fd", "inputs": {"trials": 8, "trials_thorough": 40}}
